@@ -1361,6 +1361,41 @@ class Exec:
                 raise Undecided(f"with-statement at line {n.lineno}")
         return self.run(n.body, st)
 
+    def st_Try(self, n, st):
+        """try/except: exceptions *raised by the modelled code* inside the body (raise statements, KeyError of a dict lookup) are routed to
+        the matching handler; external calls are modelled by their non-raising contract, so a handler for their errors is unreachable here
+        (reported under path-cover)."""
+        if n.finalbody:
+            raise Undecided(f"try/finally at line {n.lineno}")
+        nret = len(self.returns)
+        outs = self.run(n.body, st)
+        new_recs = self.returns[nret:]
+        del self.returns[nret:]
+        result = []
+        for rec in new_recs:
+            handled = False
+            if rec.exc is not None:
+                for h in n.handlers:
+                    names = []
+                    if h.type is None:
+                        names = None
+                    elif isinstance(h.type, ast.Name):
+                        names = [h.type.id]
+                    elif isinstance(h.type, ast.Tuple):
+                        names = [x.id for x in h.type.elts if isinstance(x, ast.Name)]
+                    if names is None or rec.exc in names or "Exception" in names:
+                        hs = rec.st
+                        if h.name:
+                            hs.env[h.name] = StrV(f"<{rec.exc}>")
+                        result += self.run(h.body, hs)
+                        handled = True
+                        break
+            if not handled:
+                self.returns.append(rec)
+        for o in outs:
+            result += self.run(n.orelse, o) if n.orelse else [o]
+        return result
+
     def st_FunctionDef(self, n, st):
         raise Undecided("nested function definition")
 
